@@ -91,7 +91,7 @@ func genC19(x *Ctx) *c19Scen {
 		if sc.Enc {
 			r.AE = []string{"gzip", "", "deflate"}[tp.G(3)]
 		}
-		r.Accept = []string{"", "application/json", "application/xml", "*/*"}[tp.G(4)]
+		r.Accept = []string{"", "application/json", "application/xml", "*/*", "text/plain"}[tp.G(5)]
 		r.Body = r.Method == "POST"
 		if r.Body {
 			r.BodyEnc = []string{"gzip", "", "deflate"}[tp.G(3)]
@@ -214,7 +214,8 @@ func c19BuildH(sc *c19Scen, history bool) *restful.Container {
 	// templates on which the two routers' parameter extraction differs
 	mk(ws1, ws1.GET("/doc/{name}.json"))
 	mk(ws1, ws1.GET("/num/{id:[0-9]+}"))
-	ws2 := new(restful.WebService).Path("/v/{tenant}").Produces("application/json")
+	// text/plain has no registered entity writer: negotiation must skip it without touching the list
+	ws2 := new(restful.WebService).Path("/v/{tenant}").Produces("text/plain", "application/json")
 	mk(ws2, ws2.GET("/items/{id}"))
 	mk(ws2, ws2.DELETE("/items/{id}"))
 	addService(ws1)
